@@ -286,6 +286,21 @@ for _n in (2, 3, 4):
     _mk(_n)
 
 
+@contract('C16', 'path.Arc.__hash__', params=[{'_no_bounded': True}], covers=('path.Arc.__eq__',))
+def eq_implies_equal_hash_Arc(c):
+    """two Arcs in arbitrary stored states: == compares the six defining fields, and equal arcs
+    hash alike (the flags may be given as bools or as 0/1: True == 1 and hash(True) == hash(1))"""
+    from contracts.c04 import arc_state
+    a, pa = arc_state(c, 'a_')
+    b, pb = arc_state(c, 'b_')
+    e = c.py_eq(a, b)
+    same = ops.And(ops.eq(pa['start'], pb['start']), ops.eq(pa['end'], pb['end']), ops.eq(pa['rx'], pb['rx']), ops.eq(pa['ry'], pb['ry']),
+                   ops.eq(pa['rot'], pb['rot']), ops.Iff(c.get(a, 'large_arc'), c.get(b, 'large_arc')), ops.Iff(c.get(a, 'sweep'), c.get(b, 'sweep')))
+    c.ensures('==-is-field-wise', ops.Iff(e, same))
+    c.ensures('a==b=>hash(a)==hash(b)', ops.Implies(e, c.py_eq(c.hash(a), c.hash(b))))
+    c.ensures('!=-is-the-negation', ops.Iff(c.py_ne(a, b) if hasattr(c, 'py_ne') else ops.Not(e), ops.Not(e)))
+
+
 @contract('C16', 'path.Path.__hash__', params=[{'kinds': k} for k in ['L', 'LQ']], level='per-shape')
 def path_eq_implies_equal_hash(c, kinds):
     p1, s1, _ = mkpath(c, kinds, prefix='a')
